@@ -129,76 +129,85 @@ def Chan.updateServers (c : Chan) (l : List SConfig) (user : Bool) : Chan :=
   { c with servers := serversUpdate c.udpPort c.tcpPort (hasFlag c.flags flagPrimary) c.servers l,
            optmask := if user then { c.optmask with servers := true } else c.optmask }
 
-/-- `ares_init_by_options(channel, options, optmask)` -/
+/-- the option mask as `ares_init_by_options` leaves it in `channel->optmask`: bits whose value is
+    rejected (non-positive numbers, NULL strings, no servers) are cleared, `ARES_OPT_TIMEOUT` is converted
+    to `ARES_OPT_TIMEOUTMS`, the query cache bit is always set -/
+def normMask (o : Options) (m : Mask) : Mask :=
+  { m with
+    timeout := false,
+    timeoutms := (m.timeoutms || m.timeout) && o.timeout > 0,
+    tries := m.tries && o.tries > 0,
+    ndots := m.ndots && o.ndots ≥ 0,
+    maxtimeoutms := m.maxtimeoutms && o.maxtimeout > 0,
+    sndbuf := m.sndbuf && o.sndbuf > 0,
+    rcvbuf := m.rcvbuf && o.rcvbuf > 0,
+    ednspsz := m.ednspsz && o.ednspsz > 0,
+    lookups := m.lookups && o.lookups.isSome,
+    resolvconf := m.resolvconf && o.resolvPath.isSome,
+    hostsFile := m.hostsFile && o.hostsPath.isSome,
+    udpMaxQueries := m.udpMaxQueries && o.udpMaxQueries > 0,
+    queryCache := true,
+    servers := m.servers && o.nservers > 0 }
+
+/-- seconds → milliseconds of `ARES_OPT_TIMEOUT`, saturating at INT_MAX (repaired tree) -/
+def secToMs (t : Int) : Nat := if t > 2147483647 / 1000 then 2147483647 else t.toNat * 1000
+
+/-- `ares_init_by_options(channel, options, optmask)`.  Every field is written by exactly one step of
+    the C function, so the result is given field by field; the server list (the last step that reads
+    other fields) uses the flags and default ports stored before it. -/
 def initByOptions (c : Chan) (opts : Option Options) (m : Mask) : Except Status Chan :=
   match opts with
   | none => if m != {} then .error .enodata else .ok { c with qcacheMaxTtl := 3600, optmask := { queryCache := true } }
   | some o =>
-    let c := if m.flags then { c with flags := toU32 o.flags } else c
-    -- timeout
-    let (c, m) :=
-      if m.timeoutms then
-        (if o.timeout ≤ 0 then (c, { m with timeout := false, timeoutms := false })
-         else ({ c with timeout := o.timeout.toNat }, { m with timeout := false }))
-      else if m.timeout then
-        (if o.timeout > 0 then
-           ({ c with timeout := (if o.timeout > 2147483647 / 1000 then 2147483647 else o.timeout.toNat * 1000) },
-            { m with timeout := false, timeoutms := true })
-         else (c, { m with timeout := false }))
-      else (c, m)
-    let (c, m) := if m.tries then (if o.tries ≤ 0 then (c, { m with tries := false }) else ({ c with tries := o.tries.toNat }, m)) else (c, m)
-    let (c, m) := if m.ndots then (if o.ndots < 0 then (c, { m with ndots := false }) else ({ c with ndots := o.ndots.toNat }, m)) else (c, m)
-    let (c, m) := if m.maxtimeoutms then
-        (if o.maxtimeout ≤ 0 then (c, { m with maxtimeoutms := false }) else ({ c with maxtimeout := o.maxtimeout.toNat }, m)) else (c, m)
-    let c := if m.rotate then { c with rotate := true } else c
-    let c := if m.norotate then { c with rotate := false } else c
-    let c := if m.udpPort then { c with udpPort := o.udpPort } else c
-    let c := if m.tcpPort then { c with tcpPort := o.tcpPort } else c
-    let (c, m) := if m.sndbuf then (if o.sndbuf ≤ 0 then (c, { m with sndbuf := false }) else ({ c with sndbuf := o.sndbuf }, m)) else (c, m)
-    let (c, m) := if m.rcvbuf then (if o.rcvbuf ≤ 0 then (c, { m with rcvbuf := false }) else ({ c with rcvbuf := o.rcvbuf }, m)) else (c, m)
-    let (c, m) := if m.ednspsz then (if o.ednspsz ≤ 0 then (c, { m with ednspsz := false }) else ({ c with ednspsz := o.ednspsz.toNat }, m)) else (c, m)
-    let c := if m.domains && o.ndomains > 0 then { c with domains := o.domains } else c
-    let (c, m) := if m.lookups then
-        (match o.lookups with
-         | none => (c, { m with lookups := false })
-         | some l => ({ c with lookups := some l }, m)) else (c, m)
-    let c := if m.sortlist && o.nsort > 0 then { c with sortlist := o.sortlist } else c
-    let (c, m) := if m.resolvconf then
-        (match o.resolvPath with
-         | none => (c, { m with resolvconf := false })
-         | some p => ({ c with resolvPath := some p }, m)) else (c, m)
-    let (c, m) := if m.hostsFile then
-        (match o.hostsPath with
-         | none => (c, { m with hostsFile := false })
-         | some p => ({ c with hostsPath := some p }, m)) else (c, m)
-    let (c, m) := if m.udpMaxQueries then
-        (if o.udpMaxQueries ≤ 0 then (c, { m with udpMaxQueries := false }) else ({ c with udpMaxQueries := o.udpMaxQueries.toNat }, m)) else (c, m)
-    let (c, m) := if m.queryCache then ({ c with qcacheMaxTtl := o.qcacheMaxTtl }, m)
-                  else ({ c with qcacheMaxTtl := 3600 }, { m with queryCache := true })
-    let (c, m) := if m.servers then
-        (if o.nservers ≤ 0 then (c, { m with servers := false })
-         else (c.updateServers (o.servers.map v4Server) true, m)) else (c, m)
-    let c := if m.serverFailover then { c with retryChance := o.retryChance, retryDelay := o.retryDelay } else c
-    .ok { c with optmask := m }
+    let nm := normMask o m
+    let c1 : Chan :=
+      { c with
+        flags := if m.flags then toU32 o.flags else c.flags,
+        timeout := if m.timeoutms then (if o.timeout > 0 then o.timeout.toNat else c.timeout)
+                   else if m.timeout && o.timeout > 0 then secToMs o.timeout else c.timeout,
+        tries := if nm.tries then o.tries.toNat else c.tries,
+        ndots := if nm.ndots then o.ndots.toNat else c.ndots,
+        maxtimeout := if nm.maxtimeoutms then o.maxtimeout.toNat else c.maxtimeout,
+        rotate := if m.norotate then false else if m.rotate then true else c.rotate,
+        udpPort := if m.udpPort then o.udpPort else c.udpPort,
+        tcpPort := if m.tcpPort then o.tcpPort else c.tcpPort,
+        sndbuf := if nm.sndbuf then o.sndbuf else c.sndbuf,
+        rcvbuf := if nm.rcvbuf then o.rcvbuf else c.rcvbuf,
+        ednspsz := if nm.ednspsz then o.ednspsz.toNat else c.ednspsz,
+        domains := if m.domains && o.ndomains > 0 then o.domains else c.domains,
+        lookups := if nm.lookups then o.lookups else c.lookups,
+        sortlist := if m.sortlist && o.nsort > 0 then o.sortlist else c.sortlist,
+        resolvPath := if nm.resolvconf then o.resolvPath else c.resolvPath,
+        hostsPath := if nm.hostsFile then o.hostsPath else c.hostsPath,
+        udpMaxQueries := if nm.udpMaxQueries then o.udpMaxQueries.toNat else c.udpMaxQueries,
+        qcacheMaxTtl := if m.queryCache then o.qcacheMaxTtl else 3600,
+        retryChance := if m.serverFailover then o.retryChance else c.retryChance,
+        retryDelay := if m.serverFailover then o.retryDelay else c.retryDelay,
+        optmask := nm }
+    .ok (if nm.servers then
+           { c1 with servers := serversUpdate c1.udpPort c1.tcpPort (hasFlag c1.flags flagPrimary) c1.servers (o.servers.map v4Server) }
+         else c1)
 
 /-- `ares_sysconfig_apply(channel, sysconfig)`: every field guarded by the bit recorded when the user set it.
     `fixed = false` is the pinned `use-vc` rule (F17). -/
 def sysconfigApplyG (fixed : Bool) (c : Chan) (s : SysConfig) : Chan :=
-  let c := match s.sconfig with
-    | some l => if !c.optmask.servers then c.updateServers l false else c
-    | none => c
-  let c := match s.domains with
-    | some d => if !c.optmask.domains then { c with domains := d } else c
-    | none => c
-  let c := match s.lookups with
-    | some l => if !c.optmask.lookups then { c with lookups := some l } else c
-    | none => c
-  let c := if !s.sortlist.isEmpty && !c.optmask.sortlist then { c with sortlist := s.sortlist } else c
-  let c := if !c.optmask.ndots then { c with ndots := s.ndots } else c
-  let c := if s.tries != 0 && !c.optmask.tries then { c with tries := s.tries } else c
-  let c := if s.timeoutMs != 0 && !c.optmask.timeoutms then { c with timeout := s.timeoutMs } else c
-  let c := if !(c.optmask.rotate || c.optmask.norotate) then { c with rotate := s.rotate } else c
-  if s.usevc && (!fixed || !c.optmask.flags) then { c with flags := orFlag c.flags flagUsevc } else c
+  { c with
+    servers := match s.sconfig with
+      | some l => if !c.optmask.servers then serversUpdate c.udpPort c.tcpPort (hasFlag c.flags flagPrimary) c.servers l
+                  else c.servers
+      | none => c.servers,
+    domains := match s.domains with
+      | some d => if !c.optmask.domains then d else c.domains
+      | none => c.domains,
+    lookups := match s.lookups with
+      | some l => if !c.optmask.lookups then some l else c.lookups
+      | none => c.lookups,
+    sortlist := if !s.sortlist.isEmpty && !c.optmask.sortlist then s.sortlist else c.sortlist,
+    ndots := if !c.optmask.ndots then s.ndots else c.ndots,
+    tries := if s.tries != 0 && !c.optmask.tries then s.tries else c.tries,
+    timeout := if s.timeoutMs != 0 && !c.optmask.timeoutms then s.timeoutMs else c.timeout,
+    rotate := if !(c.optmask.rotate || c.optmask.norotate) then s.rotate else c.rotate,
+    flags := if s.usevc && (!fixed || !c.optmask.flags) then orFlag c.flags flagUsevc else c.flags }
 
 def sysconfigApply (c : Chan) (s : SysConfig) : Chan := sysconfigApplyG true c s
 
@@ -218,25 +227,25 @@ def initBySysconfig (c : Chan) (e : SysEnv) : Chan :=
 
 /-- `init_by_defaults(channel)` -/
 def initByDefaults (c : Chan) (e : SysEnv) : Except Status Chan :=
-  let c := if !c.optmask.flags then { c with flags := orFlag c.flags flagEdns } else c
-  let c := if c.ednspsz = 0 then { c with ednspsz := 1232 } else c
-  let c := if c.timeout = 0 then { c with timeout := 2000 } else c
-  let c := if c.tries = 0 then { c with tries := 3 } else c
-  let r : Except Status Chan :=
-    if c.servers.isEmpty then
-      (if hasFlag c.flags flagNoDfltSvr then .error .enoserver
-       else .ok (c.updateServers [v4Server [127, 0, 0, 1]] false))
-    else .ok c
-  match r with
-  | .error e => .error e
-  | .ok c =>
-    let c := if c.domains.isEmpty then
-        (match e.hostDomain with
-         | some d => { c with domains := [d] }
-         | none => c) else c
-    let c := if c.lookups.isNone then { c with lookups := some [102, 98] } else c
-    let c := if !c.optmask.serverFailover then { c with retryChance := 10, retryDelay := 5000 } else c
-    .ok c
+  let flags := if !c.optmask.flags then orFlag c.flags flagEdns else c.flags
+  if c.servers.isEmpty && hasFlag flags flagNoDfltSvr then .error .enoserver
+  else
+    .ok { c with
+      flags := flags,
+      ednspsz := if c.ednspsz = 0 then 1232 else c.ednspsz,
+      timeout := if c.timeout = 0 then 2000 else c.timeout,
+      tries := if c.tries = 0 then 3 else c.tries,
+      servers := if c.servers.isEmpty then
+                   serversUpdate c.udpPort c.tcpPort (hasFlag flags flagPrimary) [] [v4Server [127, 0, 0, 1]]
+                 else c.servers,
+      domains := if c.domains.isEmpty then
+                   (match e.hostDomain with
+                    | some d => [d]
+                    | none => c.domains)
+                 else c.domains,
+      lookups := if c.lookups.isNone then some [102, 98] else c.lookups,
+      retryChance := if !c.optmask.serverFailover then 10 else c.retryChance,
+      retryDelay := if !c.optmask.serverFailover then 5000 else c.retryDelay }
 
 /-- `ares_init_options(&channel, options, optmask)` -/
 def initOptions (e : SysEnv) (opts : Option Options) (m : Mask) : Except Status Chan :=
